@@ -423,6 +423,38 @@ impl Property for C02 {
             });
         ctx.run_strategy("merge-through-alias", 2, ctx.tier.pick(10_000, 100_000), &mstrat, |_| true);
 
+        // tagged scalars with and without an anchor, used directly and through an alias
+        // (attaching an anchor must not change how a tagged node - e.g. an explicit `!!null` -
+        // is read, for Option / string / untyped targets alike)
+        let tagged: Vec<(&str, &str)> = vec![("!!null", ""), ("!!null", "~"), ("!!null", "x"), ("!!str", "7"), ("!!str", ""), ("!!str", "null"), ("!!int", "7"), ("!!bool", "true"), ("!!float", "1.5"), ("!t", "x"), ("!!binary", "AQ==")];
+        let mut idx = 0u64;
+        let mut total = 0u64;
+        for (tag, val) in &tagged {
+            for style in [Style::Plain, Style::Double] {
+                for shape in 0..4 {
+                    for lay in [Layout::default(), Layout { force_flow: true, ..Layout::default() }, Layout { breaks: 1, doc_start: true, ..Layout::default() }] {
+                        for target in TARGETS {
+                            idx += 1;
+                            total += 1;
+                            if !ctx.mine(idx) {
+                                continue;
+                            }
+                            let sc = Node::scalar(val, style).tagged(tag);
+                            let doc = match shape {
+                                0 => Node::map(false, vec![(Node::plain("x"), sc.clone().anchored("a")), (Node::plain("y"), Node::alias("a")), (Node::plain("z"), sc.clone())]),
+                                1 => Node::seq(false, vec![sc.clone().anchored("a"), Node::alias("a"), sc.clone()]),
+                                2 => Node::map(false, vec![(Node::plain("x"), sc.clone().anchored("a")), (Node::plain("z"), Node::plain("1"))]),
+                                _ => Node::seq(false, vec![Node::seq(false, vec![sc.clone().anchored("a")]).anchored("o"), Node::alias("o"), Node::alias("a")]),
+                            };
+                            let c = Case { docs: vec![doc], layout: lay.clone(), target };
+                            ctx.case("tagged-anchored-scalars", &c, true);
+                        }
+                    }
+                }
+            }
+        }
+        ctx.subspace("11 tagged scalars x 2 styles x 4 shapes x 3 layouts x 5 targets", total, true);
+
         // streams: anchors of one document must not be visible in another
         let sstrat = (
             prop::collection::vec((gdoc::arb_tree(3, 10), prop::collection::vec(any::<u16>(), 8..20)), 2..4),
